@@ -1471,7 +1471,7 @@ CHECKS["C06"]["text"] = (
     "on up to 3 trees (copies of copies included). After every copy or edit every tree is observed on a replay of its own -- "
     "flatten of a deep copy, every route an earlier observation used, thorough: in place always -- and must equal a fresh parse "
     "carrying exactly that tree's own edits (a graft: the class moved out of a second fresh parse carrying the source tree's "
-    "edits of that moment) observed through the same route. 2930 transitions quick (2349 flat + 581 pkg), 94217 thorough (predicted from the abstract run of the event alphabet; the thorough tier was last run end to end before the graft event was added)."
+    "edits of that moment) observed through the same route. 2930 transitions quick (2349 flat + 581 pkg), 94217 thorough (run end to end on the final tree: 25 min on 16 cores)."
 )
 
 CHECKS["C06"]["note"] = (
